@@ -13,7 +13,7 @@ import z3
 from vf.engine import loader, paths, proxies
 from vf.engine.paths import cur, explore, Undecided, PathEnd
 from vf.engine.proxies import SymBool, SymInt
-from claripy.errors import UnsatError, ClaripyError
+from claripy.errors import UnsatError, ClaripyError, ClaripySolverInterruptError
 
 U = 8
 ALL = z3.BitVecVal((1 << U) - 1, U)
@@ -31,11 +31,21 @@ class CH:
         self.isF = isF if isF is not None else z3.Bool(f"isF{self.uid}")
         self.annotations = ()
         self.variables = frozenset()
+        self._plain = None
         cur().assume(z3.Implies(self.isF, self.mask == ZERO))
         cur().watch[f"{name}{self.uid}"] = self.mask
 
     def clear_annotations(self):
-        return self
+        # an annotated constraint and its plain twin are different expressions (different identity and hash) with the same
+        # models; whether a handle is annotated is arbitrary
+        if self._plain is None:
+            if cur().choose([True, True], f"annotated{self.uid}") == 0:
+                self._plain = self
+            else:
+                p = CH(mask=self.mask, isF=self.isF, name="plain")
+                p._plain = p
+                self._plain = p
+        return self._plain
 
     def hash(self):
         return self.uid
@@ -401,6 +411,19 @@ def _skey(t, signed):
     return t if not signed else (t ^ z3.BitVecVal(1 << (WV - 1), WV))     # order-preserving map signed -> unsigned
 
 
+FAULTS = {"on": False}
+
+
+def _maybe_give_up(where):
+    """C17: with FAULTS on, the stack below may give up (solver timeout / interrupt) at every query instead of answering"""
+    if FAULTS["on"]:
+        c = cur()
+        c.ghost["stack_calls"] = c.ghost.get("stack_calls", 0) + 1
+        if c.choose([True, True], f"stack-gives-up@{where}#{c.ghost['stack_calls']}") == 1:
+            c.ghost["stack_raised"] = True
+            raise ClaripySolverInterruptError("timeout")
+
+
 class MSpec:
     """contract of the stack below ModelCacheMixin (FullFrontend over Z3), over the finite universe"""
 
@@ -421,6 +444,7 @@ class MSpec:
         return self.constraints
 
     def satisfiable(self, extra_constraints=(), exact=None):
+        _maybe_give_up("satisfiable")
         m = self._GXm(extra_constraints)
         c = cur()
         if c.branch(m != 0, "sat?"):
@@ -441,6 +465,7 @@ class MSpec:
         return i
 
     def _extremum(self, e, extra, signed, is_max):
+        _maybe_give_up("min/max")
         c = cur()
         m = self._GXm(extra)
         if c.branch(m == 0, "unsat?"):
@@ -472,6 +497,7 @@ class MSpec:
         return self._extremum(e, extra_constraints, signed, True)
 
     def batch_eval(self, asts, n, extra_constraints=(), exact=None):
+        _maybe_give_up("batch_eval")
         c = cur()
         m = self._GXm(extra_constraints)
         if c.branch(m == 0, "unsat?"):
@@ -500,6 +526,7 @@ class MSpec:
         return tuple(r[0] for r in self.batch_eval([e], n, extra_constraints=extra_constraints))
 
     def solution(self, e, v, extra_constraints=(), exact=None):
+        _maybe_give_up("solution")
         c = cur()
         m = self._GXm(extra_constraints)
         vz = z3.Extract(WV - 1, 0, proxies._bv(v))
@@ -605,9 +632,13 @@ def _mc_state(c, H, method):
 MC_METHODS = ["min", "max", "eval", "solution", "satisfiable", "_add"]
 
 
-def ob_modelcache(method, tier="quick"):
+def ob_modelcache(method, tier="quick", faults=False):
+    """faults=True (C17): the stack below may raise ClaripySolverInterruptError at every call.  The mixin must then either
+    propagate the error or still return a correct answer (the normal postconditions), and the cache invariant must hold on
+    the exceptional exit too - a later query must not be answered from a cache that the aborted call left half-updated."""
     global UM
-    UM = 3 if tier == "quick" else 4       # size of the semantic universe (assignments)
+    UM = 3 if (tier == "quick" or faults) else 4       # size of the semantic universe (assignments)
+    FAULTS["on"] = bool(faults)
     ns = load_modelcache()
     H = type("HM", (ns["ModelCacheMixin"], MSpec), {})
     proxies.set_iw(12)
@@ -663,6 +694,13 @@ def ob_modelcache(method, tier="quick"):
                 s._add(new, invalidate_cache=inval) if inval else s._add(new)
         except UnsatError:
             c.check(label + "/unsat-error-only-if-unsat", GX == 0, "UnsatError raised although a model exists")
+        except ClaripySolverInterruptError:
+            c.n_vcs += 1
+            if not c.ghost.get("stack_raised"):
+                c.fail(label + "/interrupt-only-if-the-backend-gave-up", "ClaripySolverInterruptError raised although no backend call gave up")
+                return "raised"
+            _mc_inv(c, s, e, label + "[after-interrupt]")
+            return method + ":interrupted"
         except (PathEnd, Undecided):
             raise
         except Exception as ex:  # noqa
@@ -670,6 +708,6 @@ def ob_modelcache(method, tier="quick"):
             c.fail(label + "/raises", f"{type(ex).__name__}: {ex} " + traceback.format_exc()[-300:], kind="raises")
             return "raised"
         _mc_inv(c, s, e, label)
-        return method
+        return method + (":answered-despite-fault" if c.ghost.get("stack_raised") else "")
 
     return explore(body, {"budget_s": 900, "max_depth": 4000, "max_failures": 3, "timeout_ms": 20000, "max_paths": 2000000})
